@@ -136,6 +136,13 @@ CHECKS = {
               "overdue (C12_loop_yields_partial; the excluded case is the known finding D19, refutation proved); after an "
               "unsubscribe call returns nothing is routed, held or outstanding, the renewal task has ended and no request is "
               "ever sent, unless the call started during an in-flight renewal (C12_clean_shutdown_partial; D20, refutation proved). "
+              "What the two findings leave is proved without any guard premise and never suppressed: with D20, once an "
+              "unsubscribe call has returned every still-routed SID is the SID of a renewal SUBSCRIBE of the renewal task "
+              "that was outstanding when an unsubscribe call was made or was sent in the iteration in which it started "
+              "executing - read off the schedule and the observed request log - and everything else clean shutdown demands "
+              "holds (C12_clean_shutdown_residual; C12_clean_shutdown_partial_obs: clause 5 outside the observation-based "
+              "guard); with D19, a run stops yielding only at a loop iteration before which the renewal task was pending "
+              "(C12_loop_yields_residual). "
               "kept_alive (C12_kept_alive): on every schedule of the domain satisfying lapse_premise (automatic renewal requested; no "
               "subscribe call or renewal pass waited more than the 60 s tolerance for its responses; every granted timeout "
               "exceeds the tolerance plus that longest wait) every SID the profile holds is unexpired at the publisher at "
@@ -144,7 +151,7 @@ CHECKS = {
               "renewals; the device is unavailable only if one of them was 'unreachable'; whenever the loop is idle with no "
               "unsubscribe call made every failure has been reported exactly once. The model is compared "
               "with the real coroutines after every action of every generated schedule (virtual-time loop, scripted publisher)."),
-        technique="Coq proof by structural, wake and timing invariants (induction over schedules) over a hand-inlined asyncio transition system, all five clauses (two partial outside the known-finding guards D19/D20, refutations proved) + differential correspondence in a virtual-time asyncio loop",
+        technique="Coq proof by structural, wake and timing invariants (induction over schedules) over a hand-inlined asyncio transition system, all seven clauses (two partial outside the known-finding guards D19/D20, refutations proved, and their two residual clauses without guard) + differential correspondence in a virtual-time asyncio loop",
         design="§4 C12, §11.3",
     ),
     "C13": dict(
